@@ -788,3 +788,9 @@ class CondTrBatched(Contract):
             total = r.sum() if isinstance(r, Tensor) else r
             want = mk_sum(self.n, lambda i: z3.If(self.check.fn((i,)), self.s1.fn((i,)), self.s2.fn((i,))))
             yield "sum_over_lanes_of_selected_branch_score", same(total, Sym(want))
+
+from vt.contract import canary as _canary  # noqa: E402
+
+_canary(VmapAssess, "in_axes=(0,None)", "density_is_sum_of_lane_densities")
+_canary(ScanUpdate, "args_only", "weight_is_sum_of_step_density_ratios")
+_canary(CondUpdate, "branch_switch:args_only", "weight_is_density_ratio_of_visible_choices")
